@@ -118,9 +118,9 @@ impl StringBuiltin {
 
     #[inline]
     pub fn to_lowercase<'arena>(s: &str, arena: &'arena Arena) -> ArenaString<'arena> {
-        let mut buffer = ArenaString::with_capacity_in(s.len(), arena);
-        s.chars().flat_map(char::to_lowercase).for_each(|ch| buffer.push(ch));
-        buffer
+        // `str::to_lowercase` and not a per-character mapping: a capital sigma at the
+        // end of a word lowers to the final form, which depends on its neighbours
+        ArenaString::from_str(arena, &s.to_lowercase())
     }
 
     #[inline]
